@@ -75,7 +75,7 @@ func c42ManifestText(n int, tables int) []byte {
 
 func c42CasCase(rt *rapid.T, rec *vh.Recorder) {
 	ctx := context.Background()
-	kind := c42PickKind(rt, "backend", 14, 15)
+	kind := c42PickKind(rt, "backend", 14, 8)
 	var g c42GitOpts
 	if kind == c42Git {
 		g.sharedCache = rapid.Bool().Draw(rt, "git.sharedCache")
@@ -87,13 +87,18 @@ func c42CasCase(rt *rapid.T, rec *vh.Recorder) {
 	st := c42NewStore(rt, kind, g)
 	defer st.cleanup()
 	nClients := rapid.IntRange(2, 4).Draw(rt, "nClients")
+	if kind == c42Git && nClients > 3 {
+		nClients = 3
+	}
 	clients := make([]*c42Client, nClients)
 	for i := range clients {
 		clients[i] = &c42Client{bs: st.client(rt)}
 	}
 	maxSteps := 14
-	if kind != c42InMem {
+	if kind == c42Local {
 		maxSteps = 9
+	} else if kind == c42Git {
+		maxSteps = 7 // a manifest update is 10-25 git processes
 	}
 	nSteps := rapid.IntRange(4, maxSteps).Draw(rt, "nSteps")
 
@@ -272,5 +277,5 @@ func TestVerif_C42(t *testing.T) {
 	recG := vh.NewRecorder("C42", "conc", "exploration", c42ConcRule, append(assume,
 		"one goroutine per client handle (a GitBlobstore handle deliberately serves its cached manifest to readers while its own write is in flight, so a handle is one sequential client)")...)
 	defer recG.Write(t)
-	vh.Check(t, "conc", 80, 120, func(rt *rapid.T) { c42ConcCase(rt, recG, 10, 6) })
+	vh.Check(t, "conc", 80, 120, func(rt *rapid.T) { c42ConcCase(rt, recG, 10, 4) })
 }
